@@ -59,6 +59,13 @@ fn prepare() -> Targets {
     let _ = std::fs::write(&t.garbage_pcap, fill(99, 64));
     let _ = std::fs::write(&t.short_pcap, &f.bytes()[..10]);
     let _ = std::fs::write(&t.empty, b"");
+    // a valid global header followed by something that is not a pcap record (caplen far above snaplen)
+    {
+        let mut b = f.bytes()[..24].to_vec();
+        b.extend_from_slice(&[1, 0, 0, 0, 2, 0, 0, 0, 0xff, 0xff, 0xff, 0x7f, 9, 0, 0, 0]);
+        b.extend_from_slice(&fill(5, 200));
+        let _ = std::fs::write(format!("{}/badrec.pcap", base), b);
+    }
     // for the unprivileged runs (EACCES): a file nobody may open, a directory nobody else may write to
     {
         use std::os::unix::fs::PermissionsExt;
@@ -137,7 +144,20 @@ fn scenario(c: &mut Choices, t: &Targets, k: usize) -> Scn {
     let p = format!("s{}", k);
     let mut b = B::new(&p);
     let h = format!("h{}", k);
-    match c.below(11) {
+    match c.below(12) {
+        11 => {
+            // the header is fine, the first record is not pcap content: whichever read builtin meets it reports it
+            let bad = format!("{}/badrec.pcap", scratch("c22"));
+            b.bind(&h, &format!("pcap_open(\"{}\")", bad), Need::Any, "pcap_open-badrec");
+            b.raw(&format!("if !is_error({}) {{\n", h));
+            match c.below(3) {
+                0 => b.log(&format!("pcap_read_all({})", h), Need::Fail, "pcap_read_all-non-pcap-record"),
+                1 => b.log(&format!("pcap_read_all({}, 5)", h), Need::Fail, "pcap_read_all-n-non-pcap-record"),
+                _ => b.log(&format!("pcap_read_next({})", h), Need::Fail, "pcap_read_next-non-pcap-record"),
+            }
+            b.raw("}\n");
+            b.done("scn:pcap-bad-record")
+        }
         0 => {
             let mode = ["", ", \"r\""][c.below(2)];
             b.log(&format!("open(\"{}\"{})", t.missing, mode), Need::Fail, "open-missing");
